@@ -1,6 +1,7 @@
 """classification of CBMC checks into obligations / known findings / violations, and the evidence file"""
 import os, json, re
 VERIF = os.path.dirname(os.path.dirname(os.path.abspath(__file__)))
+EVDIR = os.environ.get('VERIF_EVIDENCE_DIR') or os.path.join(VERIF, 'evidence')
 
 def label_props(label):
     if not label: return None
@@ -54,7 +55,7 @@ EXTRACTION_DROPS = ("extraction (cxx2c) drops or re-expresses exactly: template 
     "noexcept. Every other token of each body is copied from /repo on this run.")
 
 def write(prop, tier, seed, results, verdict, monitors, wall, rc, units):
-    os.makedirs(os.path.join(VERIF, 'evidence'), exist_ok=True)
+    os.makedirs(EVDIR, exist_ok=True)
     ulist = []; trusted = set(); cmds = set(); assumptions = set()
     for r in results:
         ex = r.get('extract') or []
